@@ -36,11 +36,11 @@ Definition loaded (f : lform) (v : dm) (raw : bytes) : lout :=
 Section Spec.
   Variable hasher_ok : N -> bool.
   Variable hash : N -> bytes -> bytes.
-  Variable codecs : N -> option codec.
+  Variable encoders : N -> option codec.
 
   (* what a store through an honest writer commits, when it succeeds *)
   Definition store_plan (lp : lproto) (v : dm) : option (link * bytes) :=
-    match codecs (lp_codec lp) with
+    match encoders (lp_codec lp) with
     | None => None
     | Some c =>
       if negb (hasher_ok (lp_mhtype lp)) then None else
